@@ -1381,7 +1381,8 @@ pub fn modulo() -> impl Function {
     Pointwise::bivariate(
         (data_type::Integer::default(), data_type::Integer::default()),
         data_type::Integer::default(),
-        |a, b| (a % b).into(),
+        // A zero divisor (or i64::MIN % -1) must not panic
+        |a, b| a.checked_rem(b).unwrap_or(0).into(),
     )
 }
 
